@@ -62,7 +62,7 @@ def ent_json(d):
     if d["nhdr"] >= 1:
         hdrs.append(["content-type", "text/plain"])
     if d["nhdr"] >= 2:
-        hdrs.append(["x-verif", "v"])
+        hdrs.append(["content-language", "en"])
     return {
         "len": d["len"],
         "etag": ETAGS.get(d["etag"]),
